@@ -12,6 +12,9 @@ RULE = (
     "include_descriptions=True; the monitor checks that printing does not raise, is deterministic, "
     "the text re-parses under the same flags to an equal tree (to_dict() without loc; descriptions "
     "compared by value because the printer documents block form) and re-prints to the same text. "
+    ""
+    "Printing also goes through the module-level print_ast after earlier calls with other options "
+    "in the same process and must equal a fresh printer's text.  "
     "Non-trivial = distinct (text, indent) whose document has >= 1 string value or description or "
     ">= 2 definitions."
 )
